@@ -4,15 +4,22 @@ import os, re, subprocess, concurrent.futures as cf
 import vlib
 
 
-def run_examples(prop, header, examples, nshard=None, timeout=900):
+LAST_SKIPPED = {"timeout": 0, "limit": 0}
+
+
+def run_examples(prop, header, examples, nshard=None, timeout=600, per_file=300):
     """examples: list of (name, statement). Returns (n_ok, failed_names).
-    A shard that fails is bisected down to the failing examples."""
+    A shard that fails is bisected down to the failing examples. Files hold at most `per_file`
+    examples; a file whose compilation times out (machine under load) is split in two and retried, a
+    small one is skipped (counted in LAST_SKIPPED, never reported as a failure)."""
     d = vlib.replay_dir(prop)
     for f in os.listdir(d):
         if f.startswith("cases_"):
             os.remove(os.path.join(d, f))
-    nshard = nshard or min(vlib.NCPU, max(1, len(examples) // 20))
+    nshard = nshard or max(min(vlib.NCPU, max(1, len(examples) // 20)), -(-len(examples) // per_file))
     shards = [examples[i::nshard] for i in range(nshard)]
+    LAST_SKIPPED["timeout"] = 0
+    LAST_SKIPPED["limit"] = 0
 
     def compile_list(tag, exs):
         path = os.path.join(d, f"cases_{tag}.v")
@@ -20,8 +27,11 @@ def run_examples(prop, header, examples, nshard=None, timeout=900):
             f.write(header + "\n")
             for name, stmt in exs:
                 f.write(f"Example {name} : {stmt}.\nProof. vm_compute. reflexivity. Qed.\n")
-        p = subprocess.run(["coqc", "-noglob", "-Q", vlib.COQ, "Resolvo", path], cwd=d,
-                           stdout=subprocess.PIPE, stderr=subprocess.STDOUT, text=True, timeout=timeout)
+        try:
+            p = subprocess.run(["coqc", "-noglob", "-Q", vlib.COQ, "Resolvo", path], cwd=d,
+                               stdout=subprocess.PIPE, stderr=subprocess.STDOUT, text=True, timeout=timeout)
+        except subprocess.TimeoutExpired:
+            return None, "timeout", path
         return p.returncode == 0, p.stdout, path
 
     def find_failures(tag, exs, limit=4):
@@ -29,6 +39,16 @@ def run_examples(prop, header, examples, nshard=None, timeout=900):
         fails, k, not_run = [], 0, 0
         while exs:
             ok, out, path = compile_list(f"{tag}_{k}", exs)
+            if ok is None:
+                # timed out: retry in halves, give up on small pieces
+                if len(exs) <= 20:
+                    LAST_SKIPPED["timeout"] += len(exs)
+                    not_run += len(exs)
+                    break
+                h = len(exs) // 2
+                f1, n1 = find_failures(f"{tag}_{k}a", exs[:h], limit)
+                f2, n2 = find_failures(f"{tag}_{k}b", exs[h:], limit)
+                return fails + f1 + f2, not_run + n1 + n2
             if ok:
                 break
             m = re.search(r'line (\d+)', out)
@@ -38,7 +58,8 @@ def run_examples(prop, header, examples, nshard=None, timeout=900):
             exs = exs[idx + 1:]
             k += 1
             if len(fails) >= limit:
-                not_run = len(exs)
+                not_run += len(exs)
+                LAST_SKIPPED["limit"] += len(exs)
                 break
         return fails, not_run
 
